@@ -283,11 +283,37 @@ class SympyCondition(Condition):
     def _with_measurement_key_mapping_(self, key_map: Mapping[str, str]) -> cirq.Condition:
         # All keys are renamed at once: replacing them one after the other would merge two keys
         # whenever the new name of one is the old name of another (e.g. {'a': 'b', 'b': 'a'}).
+        return self._replace_keys(
+            {k: mkp.with_measurement_key_mapping(k, key_map) for k in self.keys}
+        )
+
+    def _with_key_path_prefix_(self, path: tuple[str, ...]) -> cirq.Condition:
+        return self._replace_keys({k: mkp.with_key_path_prefix(k, path) for k in self.keys})
+
+    def _with_rescoped_keys_(
+        self, path: tuple[str, ...], bindable_keys: frozenset[cirq.MeasurementKey]
+    ) -> cirq.Condition:
+        replacements = {}
+        for key in self.keys:
+            for i in range(len(path) + 1):
+                new_key = key.with_key_path_prefix(*path[: len(path) - i])
+                if new_key in bindable_keys:
+                    replacements[key] = new_key
+                    break
+        return self._replace_keys(replacements)
+
+    def _replace_keys(
+        self, replacements: Mapping[cirq.MeasurementKey, cirq.MeasurementKey]
+    ) -> SympyCondition:
+        # xreplace swaps all symbols in one traversal: replacing them one after the other would
+        # merge two keys whenever the new name of one is the old name of another.
+        names = {str(k): str(v) for k, v in replacements.items()}
         subs = {
-            str(k): sympy.Symbol(str(mkp.with_measurement_key_mapping(k, key_map)))
-            for k in self.keys
+            symbol: sympy.Symbol(names[symbol.name])
+            for symbol in self.expr.free_symbols
+            if symbol.name in names
         }
-        return SympyCondition(self.expr.subs(subs, simultaneous=True))
+        return SympyCondition(self.expr.xreplace(subs))
 
     def __str__(self):
         return str(self.expr)
